@@ -177,6 +177,19 @@ func stlMutate(m map[string]string) []byte {
 				if i == 0 {
 					c = ' '
 				}
+			case "negative": // a sign where only digits belong: -9999
+				c = '9'
+				if i == 0 {
+					c = '-'
+				}
+			case "plus-sign": // +0001
+				c = '0'
+				if i == 0 {
+					c = '+'
+				}
+				if i == n-1 {
+					c = '1'
+				}
 			case "control":
 				c = byte(i % 0x20)
 			case "accent-first":
@@ -220,7 +233,9 @@ func stlMutate(m map[string]string) []byte {
 
 var shapeTexts = []string{"plain", "", "́ë leading combining mark", "ctrl\x00\x01\x1b\x7f\u0085", "\U0001F600 non-BMP \U000E0001", "\xff\xfe invalid utf-8", "x\ny\r\nz --> w",
 	// marks that only reach the front of the text through canonical decomposition / reordering
-	"\u0341abc deprecated tone mark first", "\u0323\u0327x reordered marks first"}
+	"\u0341abc deprecated tone mark first", "\u0323\u0327x reordered marks first",
+	// several marks before the first letter, marks stacked on a letter, a mark and nothing else
+	"\u0301\u0308e two leading marks", "e\u0301\u0308\u0323 stacked marks", "\u0301"}
 
 // buildShape builds a value of the public types in which each optional part is present or absent as the shape says.
 func buildShape(sh abs.IntMap) *astisub.Subtitles {
